@@ -354,7 +354,9 @@ def real_forwarding(s):
     import qha.v2p
     fails, evals = [], 0
     cases = [dict(seed=s.seed + 31, system="orthorhombic"), dict(seed=s.seed + 32, system="monoclinic", settings={"qha": {"settings": {"static_only": True}}}),
-             dict(seed=s.seed + 33, system="trigonal7", lattice=False, settings={"qha": {"settings": {"P_MIN": 6.0, "NTV": 15, "NT": 11, "DT": 150, "DT_SAMPLE": 150}}})]     # 15 x 15: square grids
+             dict(seed=s.seed + 33, system="trigonal7", lattice=False, settings={"qha": {"settings": {"P_MIN": 6.0, "NTV": 15, "NT": 11, "DT": 150, "DT_SAMPLE": 150}}}),     # 15 x 15: square grids
+             # a pressure grid listed from high to low (DELTA_P < 0, P_MIN its top): the schema allows it and every column must stay with ITS pressure
+             dict(seed=s.seed + 34, system="cubic", na=1, settings={"qha": {"settings": {"P_MIN": 20.0, "DELTA_P": -1.25, "DELTA_P_SAMPLE": -1.25, "NTV": 13, "NT": 5, "DT": 400, "DT_SAMPLE": 400}}})]
     for kw in cases:
         with calc_env.synthetic_case(**kw) as case:
             try:
@@ -362,6 +364,13 @@ def real_forwarding(s):
                 pb, vb = calc.pressure_base, calc.volume_base
                 Ptv = numpy.asarray(calc.qha_calculator.volume_base.pressures)
                 p = numpy.asarray(pb.p_array)
+                st = (kw.get("settings") or {}).get("qha", {}).get("settings", {})
+                qc = getattr(calc.qha_calculator, "calculator", calc.qha_calculator)          # the adapter wraps qha's own calculator
+                if "DELTA_P" in st and not (numpy.allclose(numpy.asarray(qc.desired_pressures_gpa), st["P_MIN"] + st["DELTA_P"] * numpy.arange(st["NTV"]), rtol=1e-9, atol=1e-9)
+                                            and numpy.array_equal(p, numpy.asarray(qc.desired_pressures))):
+                    fails.append({"witness_id": "real-forwarding:p_array", "input": dict(kw), "observed": "pressure_base.p_array is not the requested grid P_MIN + k DELTA_P in the requested order: %s" % p[:4].tolist(),
+                                  "expected": (st["P_MIN"] + st["DELTA_P"] * numpy.arange(4)).tolist()})
+                    break
                 names = list(NAMED)
                 for k in calc.modulus_keys:
                     I, J = k.voigt
@@ -390,7 +399,7 @@ def real_forwarding(s):
                 fails.append({"witness_id": "real-forwarding-raises", "input": dict(kw), "observed": "raises %r" % (e,), "expected": "pressure-base quantities"})
         if fails:
             break
-    s.bounded_standin("C06.forwarding_on_real_calculators", "3 synthetic calculators (orthorhombic; monoclinic with static_only; trigonal7 with P_MIN = 6 GPa on a square 15 x 15 grid): named quantities, every component by "
+    s.bounded_standin("C06.forwarding_on_real_calculators", "4 synthetic calculators (orthorhombic; monoclinic with static_only; trigonal7 with P_MIN = 6 GPa on a square 15 x 15 grid; cubic on a pressure grid listed from 20 GPa DOWN to 5 GPa): named quantities, every component by "
                       "attribute in six spellings, by item and through materialised items(), compliances", evals, evals, fails,
                       ["calculator.Calculator", CA + "__getattr__", CA + "v2p", "calculator.CijPressureBaseModulusInterface.items"])
 
